@@ -79,7 +79,7 @@ pub struct Exports<'a, P> {
 }
 impl<'a, P: Pe<'a>> Exports<'a, P> {
 	pub(crate) fn try_from(pe: P) -> Result<Exports<'a, P>> {
-		let datadir = pe.data_directory().get(IMAGE_DIRECTORY_ENTRY_EXPORT).ok_or(Error::Bounds)?;
+		let datadir = pe.data_directory().get(IMAGE_DIRECTORY_ENTRY_EXPORT).ok_or(Error::Null)?;
 		let image = pe.derva(datadir.VirtualAddress)?;
 		Ok(Exports { pe, datadir, image })
 	}
